@@ -501,6 +501,36 @@ def r5_protocol(m, ctx, blocks):
     return r
 
 
+EXIT_PATH_INSTANCES = {
+    # block instances whose opening and END classes both answer get_name(): the engine's final name comparison applies to them and, on a
+    # mismatch, calls reader.error() -> sys.exit (known finding F3, `subroutine a` / `end subroutine b`); confirmed by reading
+    "Block_Data", "Function_Body", "Function_Subprogram", "Main_Program", "Module", "Subroutine_Body", "Subroutine_Subprogram", "Submodule(08)",
+}
+
+
+def r22_exit_path_instances(m, blocks):
+    r = RuleResult("C06.R22", "the engine's final start/END name comparison -- whose mismatch branch ends the process (known finding F3) -- is "
+                              "enabled (both classes answer get_name()) for the eight program-unit blocks only, where the names are plain "
+                              "names; no other block is routed into it")
+    r.floor = 8
+    for inst in blocks:
+        if not inst.args:
+            continue
+        sc, ec = inst.args.get("startcls"), inst.args.get("endcls")
+        if sc is None or ec is None or sc.kind != "class" or ec.kind != "class":
+            continue
+        if not (m.has_attr(sc.v, "get_name") and m.has_attr(ec.v, "get_name")):
+            continue
+        r.instances += 1
+        ok = inst.tag in EXIT_PATH_INSTANCES
+        r.ob(ok, "%s: %s / %s" % (inst.tag, sc.short(), ec.short()))
+        if not ok:
+            r.fail("%s|exit-path" % inst.tag, "%s: both %s and %s now answer get_name(), so BlockBase.match compares their names as text at the "
+                   "end and, when they differ (for a generic-spec already by a blank: `operator(.x.)` / `operator (.x.)`), calls "
+                   "reader.error(), which terminates the process" % (inst.tag, sc.short(), ec.short()), m.loc(inst.func, inst.call))
+    return r
+
+
 def run(m, tier):
     ctx = cb.get_ctx(m)
     blocks = tables.engine_instances(m, "BlockBase")
@@ -533,6 +563,9 @@ def run(m, tier):
     results.append(guard_rules.match_object_rule(m, "C06.R18"))
     results.append(optional_rules.accessor_index_rule(m, "C06.R19"))
     results.append(order_rules.definite_none_rule(m, "C06.R21"))
+    results.append(r22_exit_path_instances(m, blocks))
+    from rules import reader_rules
+    results.append(reader_rules.rule_item_ctor_agreement(m, "C06.R23"))
     from rules import C08
     from sa.report import retag
     results.append(retag(C08.r4_opener_index(m), "C06.R20", "the block engine calls the get_start_*() protocol on content[start_idx], never on a "
